@@ -3,8 +3,15 @@ from . import _e1check
 PID, CORPUS = "C04", "pv.corpora.c04"
 
 
+def _extra(cfg):
+    from ..corpora import c04 as C
+
+    v, n = _e1check.rejection_clauses(C.rejections(), "c04")
+    return v, n, {"rejection_clauses_checked": n}
+
+
 def run(tier, seed):
-    return _e1check.run(PID, CORPUS, tier, seed)
+    return _e1check.run(PID, CORPUS, tier, seed, extra=_extra)
 
 
 def replay(path):
